@@ -67,6 +67,15 @@ def main(n, seed):
         try:
             kw = {"roots": roots} if roots is not None else {}
             got = list(diff(old, new, with_unchanged=wu, hash_only=ho, with_renames=wr, meta_only=mo, **kw))
+            # swapping the arguments swaps added and deleted and nothing else -- for every option combination, shallow included
+            # (a hashed directory is then opaque on its own side; here some directories are hashed on one side only)
+            for sh in (False, True):
+                o2, n2 = (build(fo, hl)[0], build(fn, not hl if sh else hl)[0])
+                fwd = Counter((c.typ, c.key) for c in diff(o2, n2, with_unchanged=wu, hash_only=ho, meta_only=mo, shallow=sh, **kw))
+                o3, n3 = (build(fo, hl)[0], build(fn, not hl if sh else hl)[0])
+                bwd = Counter(({ADD: DELETE, DELETE: ADD}.get(c.typ, c.typ), c.key) for c in diff(n3, o3, with_unchanged=wu, hash_only=ho, meta_only=mo, shallow=sh, **kw))
+                if fwd != bwd and problem is None:
+                    problem = f"diff(new, old) is not the mirror image of diff(old, new) (shallow={sh}): only forward {sorted((fwd - bwd).elements())[:3]}, only backward {sorted((bwd - fwd).elements())[:3]}"
             exp = Counter()
             for k in set(eo) | set(en):
                 if roots is not None and not any(k[: len(r)] == r for r in roots):
@@ -77,7 +86,7 @@ def main(n, seed):
                 exp[(t, k)] += 1
             if not wr:
                 g = Counter((c.typ, c.key) for c in got)
-                if g != exp:
+                if g != exp and problem is None:
                     extra, miss = sorted((g - exp).elements())[:3], sorted((exp - g).elements())[:3]
                     problem = f"changes differ from the key-by-key reference: unexpected={extra} missing={miss}"
             else:
@@ -106,7 +115,7 @@ def main(n, seed):
             fails.append({"old": {"/".join(k): v for k, v in fo.items()}, "new": {"/".join(k): v for k, v in fn.items()},
                           "with_unchanged": wu, "hash_only": ho, "meta_only": mo, "with_renames": wr, "hashless": hl, "roots": roots, "problem": problem})
     return {"evaluations": n, "distinct_nontrivial": len(distinct), "failures": fails[:3], "n_failures": len(fails),
-            "bound": "keys over {a,b,c}, depth <= 3, <= 6 files per side, explicit hashed directory entries, metadata-only changes, entries without hash, hash_only / meta_only / renames / with_unchanged / roots"}
+            "bound": "keys over {a,b,c}, depth <= 3, <= 6 files per side, explicit hashed directory entries, metadata-only changes, entries without hash, hash_only / meta_only / renames / with_unchanged / roots; mirror-image check also with shallow=True and directories hashed on one side only"}
 
 
 if __name__ == "__main__":
